@@ -282,7 +282,20 @@ fn part_tasks(report: &Report, tier: Tier) {
         (json!({"tool": "bash", "args": {"command": "printf 'ab'", "max_bytes": 1}}), "preview_limit_1"),
         (json!({"tool": "bash", "args": {"command": "printf '\\342\\202\\254uro'", "max_bytes": 2}}), "preview_limit_2_euro"),
         (json!({"tool": "bash", "args": {"command": "printf '\\342\\202\\254uro' >&2; printf x", "max_bytes": 0}}), "preview_limit_0_both"),
+        // more on EACH stream than the preview limit, less than the cap: both logs complete
+        (json!({"tool": "bash", "args": {"command": "head -c 3000 /dev/zero | tr '\\0' 'e' >&2; head -c 2000 /dev/zero | tr '\\0' 'o'", "max_bytes": 128}}), "both_above_preview_limit"),
+        (json!({"tool": "bash", "args": {"command": "head -c 3000 /dev/zero | tr '\\0' 'e' >&2; head -c 2000 /dev/zero | tr '\\0' 'o'", "max_bytes": 128, "artifact_max_bytes": 2500}}), "both_above_preview_limit_cap2500"),
     ];
+    let expected_stderr: std::collections::HashMap<&str, Vec<u8>> = [
+        ("stderr_only", b"err".to_vec()),
+        ("both_binary", b"err".to_vec()),
+        ("stdout_utf8", vec![]),
+        ("preview_limit_0_both", "€uro".as_bytes().to_vec()),
+        ("both_above_preview_limit", vec![b'e'; 3000]),
+        ("both_above_preview_limit_cap2500", vec![b'e'; 2500]),
+    ]
+    .into_iter()
+    .collect();
     let expected_stdout: std::collections::HashMap<&str, Vec<u8>> = [
         ("stdout_utf8", "aéb\n".as_bytes().to_vec()),
         ("background_job_holds_stdout", b"early\nlate\n".to_vec()),
@@ -296,6 +309,8 @@ fn part_tasks(report: &Report, tier: Tier) {
         ("preview_limit_1", b"ab".to_vec()),
         ("preview_limit_2_euro", "€uro".as_bytes().to_vec()),
         ("preview_limit_0_both", b"x".to_vec()),
+        ("both_above_preview_limit", vec![b'o'; 2000]),
+        ("both_above_preview_limit_cap2500", vec![b'o'; 2000]),
     ]
     .into_iter()
     .collect();
@@ -380,6 +395,17 @@ fn part_tasks(report: &Report, tier: Tier) {
         }
         // stored output byte-exact (uncancelled runs), ranges consecutive
         if *cancel == "never" {
+            // the other stream has a log of its own (its own writer, its own cap)
+            if let Some(want) = expected_stderr.get(label) {
+                let (_, b) = app.request("GET", &format!("/tasks/{id}/output?stream=stderr&offset_bytes=0&max_bytes=100000"), None);
+                let v: Value = serde_json::from_slice(&b).unwrap_or(Value::Null);
+                let art = v["artifact_id"].as_str().unwrap_or("");
+                let stored = std::fs::read(app.root.join(".rip/artifacts/blobs").join(art)).unwrap_or_default();
+                report.count("task_stderr_logs_compared", 1);
+                if &stored != want {
+                    report.violation("C17:task_stored_output:stderr", case(), &format!("stored stderr holds {} bytes, expected {} (prefix up to the cap)", stored.len(), want.len()));
+                }
+            }
             if let Some(want) = expected_stdout.get(label) {
                 let (_, b) = app.request("GET", &format!("/tasks/{id}/output?stream=stdout&offset_bytes=0&max_bytes=100000"), None);
                 let v: Value = serde_json::from_slice(&b).unwrap_or(Value::Null);
